@@ -21,11 +21,11 @@ type e2spec struct {
 	configs int
 	cases   int
 	maxS    float64
-	nenum   int // C05: configurations of the exhaustive small-graph family (6 shapes x 4^3 scope assignments = 384)
+	nenum   int // C05: configurations of the exhaustive small-graph family (7 shapes x 4^3 scope assignments = 448)
 }
 
 var engine2Tiers = map[string]map[string]e2spec{
-	"C05": {"quick": {24, 6400, 150, 96}, "thorough": {96, 240000, 1500, 384}},
+	"C05": {"quick": {24, 6400, 150, 112}, "thorough": {96, 240000, 1500, 448}},
 	"C15": {"quick": {24, 4800, 150, 0}, "thorough": {96, 200000, 1500, 0}},
 	"C20": {"quick": {20, 6400, 200, 0}, "thorough": {64, 240000, 1800, 0}},
 }
@@ -441,7 +441,7 @@ func report2(o opts, s *prep.Scratch, probe string, g genOut, m1 *merged, m2 *e2
 	case "C15":
 		cov["exhaustive_subspace"] = fmt.Sprintf("all %d histories of length 1..4 over a 10-operation alphabet {GetParam p1|p2|p3, Get s1|s2|s3, OverrideParam p1:=value, p1:=param p3, p3:=provider, OverrideService s1} on the configuration {p1=%%todo()%%, p2=%%p1%%-x, p3=7, s1 todo, s2(@s1,%%p2%%), s3(%%p3%%)} were executed and compared with the model (count in probes)", 11110)
 	case "C05":
-		cov["exhaustive_subspace"] = fmt.Sprintf("%d configurations of the enumerated family (6 small shapes: argument chain, field+call fan-out, tag edge, decorator edge, two decorators on two tags in both orders) x scope assignments {unset,shared,contextual,non_shared}^3 (384 in the thorough tier = the whole family) had their verdict compared with the legality model and, if accepted, were run under drawn histories", engine2Tiers["C05"][o.tier].nenum)
+		cov["exhaustive_subspace"] = fmt.Sprintf("%d configurations of the enumerated family (7 small shapes: argument chain, field+call fan-out, tag edge, decorator edge, two decorators on two tags in both orders, chain ending in a scoped todo placeholder) x scope assignments {unset,shared,contextual,non_shared}^3 (448 in the thorough tier = the whole family) had their verdict compared with the legality model and, if accepted, were run under drawn histories", engine2Tiers["C05"][o.tier].nenum)
 	}
 	ev := &Evidence{PropertyID: o.prop, Tier: o.tier, Seed: int64(o.seed), Level: "exploration", Coverage: cov, Assumptions: assumptions2[o.prop], WallS: wall, Violations: newViol}
 	if evals == 0 {
